@@ -157,6 +157,6 @@ Qed.
 Theorem verdict_agree_implies_holds : forall c,
   fst (fst (c01_verdict c)) = true -> snd (fst (c01_verdict c)) = true.
 Proof.
-  intros c H. unfold c01_verdict in *. simpl in *.
+  intros c H. unfold c01_verdict in *. simpl in *. apply andb_true_iff in H as [H _].
   apply (agree_implies_holds c (m_empty, m_empty) Inv2_init H).
 Qed.
